@@ -733,7 +733,6 @@ func (d *dealer) syncCall(caller *wamp.Session, msg *wamp.Call) {
 			session: caller.ID,
 			request: msg.Request,
 		}
-		d.calls[reqID] = caller
 		invk = &invocation{
 			callID:     reqID,
 			callee:     callee,
@@ -849,6 +848,9 @@ func (d *dealer) syncCall(caller *wamp.Session, msg *wamp.Call) {
 			session: callee.ID,
 			request: invocationID,
 		}
+		// Record the call only now: every refusal above returns without
+		// leaving anything behind.
+		d.calls[reqID] = caller
 		d.invocations[invkReqID] = invk
 		d.invocationByCall[reqID] = invkReqID
 	} else {
